@@ -98,7 +98,8 @@ theorem Ob.adv {T : Nat} {s s' : Sys} (h : SysOK nat blocked SLA SLB SR liteA li
     obtain ⟨l', hl', el⟩ := (he.lk x).localByAddr h1
     obtain ⟨r', hr', er⟩ := (he.lk x).findRemote h2
     obtain ⟨p', hp', kp⟩ := (he.lk x).findPair (endsOK_of_c06 (h.c06 x) (h.good x).open_) el er.key h3
-    exact ⟨l', r', p', hl', hr', hp', fun hn => kp.nomOn (h4 hn)⟩
+    exact ⟨l', r', p', hl', hr', hp', fun hn => (h4 hn).elim
+      (fun hm => (kp.nomOn hm).imp (fun y => y) (fun f => f (h.good x).linv)) (fun hs => Or.inr ((he.lk x).sel hs))⟩
 
 theorem ReqD.adv {T : Nat} {s s' : Sys} (he : AdvEffect T0 T s s') {x : Bool} {tid la ra : Nat} {uc : Bool} {d : Dgram}
     (h : ReqD s x tid la ra uc d) : ReqD s' x tid la ra uc d := by
